@@ -5,6 +5,8 @@ on the input, replacements inserted verbatim) vs. the real
 mutator_utils.apply_simp / nodes.substitute; plus base immutability, object
 identity of untouched subtrees and a logical step budget.
 """
+import os
+
 from vlib import budget, common, refmodel
 
 LEVEL = 'exploration'
@@ -528,6 +530,8 @@ def run(ctx):
                 'n': 40 if ctx.tier == 'quick' else 4000} for i in range(4)]
     results = common.run_shards('checks.c11', shards, timeout=3000)
     common.merge_shards(ctx, results)
+    from checks import c11_real
+    c11_real.run(ctx)
     ctx.rule = (
         'random lists of trees over a 9-letter alphabet (so structural keys '
         'occur repeatedly), optional set-logic/set-info prefix; '
@@ -542,6 +546,9 @@ def run(ctx):
         'handed histories of pickled inputs (same-size edits, size changes, '
         'returns, repeats), each with a simplification for exactly that '
         'input, and the candidate they check is compared with the model; '
+        'real parallel runs (-j 4..16) with only EraseNode enabled and a '
+        'command that accepts everything equally fast: every written '
+        'content must be its predecessor with something removed; '
         'distinct non-trivial = distinct (input, simplification) pairs')
     ctx.assumptions = [
         'overlaps between id-designated and structurally designated regions '
@@ -621,6 +628,22 @@ def replay(data):
         w = c['witness']
         if 'history' in w:
             replay_pipeline(ns, res, w)
+            continue
+        if 'rules' in w and 'opts' in w:
+            # timing-dependent: repeat the real run a few times
+            from checks import c11_real
+            from vlib import realrun, common as _c
+            base = _c.scratch_dir('c11rr')
+            for k in range(10):
+                run = realrun.run_ddsmt(
+                    os.path.join(base, f'r{k}'), w['input'], w['rules'],
+                    opts=w['opts'],
+                    launcher={'monitors': ['write'], 'write_text': True})
+                c11_real.judge(res, run, w['input'], w)
+                if res.violations:
+                    break
+            import shutil
+            shutil.rmtree(base, ignore_errors=True)
             continue
         exprs = [refmodel.build(ns.Node, t) for t in w['input']]
         nodes = {str(p): n for n, p in all_nodes(exprs)}
